@@ -31,8 +31,6 @@ func checkC01(ctx *Ctx) *Result {
 	r.rule("R1.9", "splitAtCommonSuffix removes the same number of trailing bytes from both arguments and returns that many trailing bytes of the shorter one, comparing byte by byte from the end and stopping at the first difference", 4)
 	insertRestructuring(ctx, r)
 	commonSuffixRule(ctx, r)
-	r.rule("R1.10", "every slice that is binary-searched (node.edges, node.schemes, node.ports[i], SortedSet.elems) is sorted whenever it is written: inserted at its own search index, sorted after its last change and before/after being stored, a sub-slice or copy of a sorted one, or a single element", 4)
-	sortedDiscipline(ctx, r, "R1.10")
 	// ---- R1.1 -----------------------------------------------------------
 	rt, ok := requestTableGuards(ctx, r)
 	if ok {
@@ -106,15 +104,6 @@ func checkC01(ctx *Ctx) *Result {
 	}
 
 	treeRules(ctx, r)
-	// "a listed pattern allows its own origin" also needs the request-side
-	// parser to admit every origin a pattern can denote (defect F3): shared
-	// with C13
-	r.rule("R13.5", "request-side Parse: length cap admits the longest origin an accepted pattern denotes, same lexers, trailing input rejected", 3)
-	for _, o := range checkC13(ctx).Obls {
-		if o.Rule == "R13.5" {
-			r.Obls = append(r.Obls, o)
-		}
-	}
 	return r
 }
 
@@ -123,6 +112,29 @@ func checkC01(ctx *Ctx) *Result {
 // "Contains means: a listed pattern denotes the origin" as an axiom.
 func treeRules(ctx *Ctx, r *Result) {
 	p := ctx.P
+	// every slice the tree binary-searches is kept sorted
+	r.rule("R1.10", "every slice that is binary-searched (node.edges, node.schemes, node.ports[i], SortedSet.elems) is sorted whenever it is written: inserted at its own search index, sorted after its last change and before/after being stored, a sub-slice or copy of a sorted one, or a single element", 4)
+	sortedDiscipline(ctx, r, "R1.10")
+	// "allowed ⇔ a listed pattern denotes the origin" also rests on the
+	// request-side parser: it must admit every origin a pattern can denote
+	// (defect F3) and lex scheme, host and port as documented — shared with
+	// C13 (only when this is not C13 itself)
+	if r.Property != "C13" {
+		docs := map[string]string{
+			"R13.1": "documented limits are the constants in use; the lexers' loops are bounded by them; parsePort: first byte a non-zero digit, success ⇒ port ≤ 65535",
+			"R13.5": "request-side Parse: length cap admits the longest origin an accepted pattern denotes, same lexers, trailing input rejected",
+			"R13.6": "parseScheme and parsePort report success only after consuming at least one byte",
+			"R13.7": "fastParseHost: step table of the domain/IPv4 scan",
+		}
+		for id, doc := range docs {
+			r.rule(id, doc, 1)
+		}
+		for _, o := range checkC13(ctx).Obls {
+			if _, shared := docs[o.Rule]; shared {
+				r.Obls = append(r.Obls, o)
+			}
+		}
+	}
 	r.rule("R1.3", "port-code encoding agreement between add / contains / elems; sentinel and shift disjoint from real ports", 6)
 	r.rule("R1.4", "parallel slices are updated pairwise, same constructor, same index; never reordered or resized alone", 4)
 	r.rule("R1.5", "Insert always adds (or is subsumed by a wildcard entry); wildcard flag = result of the `*` test", 6)
